@@ -6,6 +6,18 @@ ids = [p['id'] for p in props]
 E = 'exploration'; M = 'model_checking'; F = 'fault_enumeration'
 # id: (level, technique, level text, level_note, design_ref)
 checks = {
+ 'C15': (M, 'explicit-state BFS over the real scanner (state = private insertSemi/nParen/last lexeme, actions = separator x lexeme) plus bounded-exhaustive byte strings, invariants checked on every scan',
+         'Every reachable abstract scanner state is expanded with every (separator, lexeme) action on the real scanner, and every byte string up to length 4/5 over a 24-byte alphabet is scanned in both comment modes; in each the totality/offset/text/coverage invariants of the statement are evaluated. Complete within the stated alphabets and bounds.',
+         'State canonicalisation assumes Scan depends only on remaining bytes + (insertSemi, nParen, pending unit); nParen clamped to -2..3. c\"\"/py\"\" literals are compared after their prefix, ILLEGAL tokens exempt from text equality, inserted semicolons may share a comment offset.', '§2 C15'),
+ 'C16': (M, 'explicit-state BFS over the product of the XGo scanner and go/scanner driven by Go lexemes, plus bounded-exhaustive numeric and quote/escape strings',
+         'Product exploration: every reachable (XGo scanner state, last lexeme) with every (separator, Go lexeme) action, complete token streams and error offsets compared with go/scanner; all strings up to length 5/6 over a 16-symbol numeric alphabet and 4/5 over a 13-symbol quote/escape alphabet. Recorded deviations are normalised away before anything else is compared, so they cannot mask other differences.',
+         'go/scanner of the installed go1.23 is the reference; inputs containing XGo-only spellings (units, -> <> => ? $ c\"\" py\"\") are outside the premise and counted as excluded.', '§2 C16'),
+ 'C32': (M, 'explicit-state BFS over the product of the XGo scanner and the TPL scanner driven by shared lexemes, plus bounded-exhaustive byte strings',
+         'Every reachable product state x every (separator, shared lexeme) action and every byte string up to length 4/5 over a 23-byte shared alphabet, in both comment modes; token kinds, offsets, literals and inserted semicolons compared.',
+         'Keywords, c\"\"/py\"\" literals and the TPL-only operators ** ~ @ are not shared lexemes (excluded, counted). Error messages are not compared.', '§2 C32'),
+ 'C33': (E, 'complete enumeration of the finite token tables of both token packages',
+         'The token tables are finite; every XGo token value 0..0x120, every operator/keyword/additional token, every go/token operator and keyword and every TPL token with a spelling is scanned alone and checked (token, String, Len, Precedence=>IsOperator, Lookup). This is a complete decision of the property.',
+         'Semicolon-insertion expectations come from the Go spec plus the XGo additions ! ? ...', '§2 C33'),
  'C35': (E, 'bounded-exhaustive enumeration of all argument lists up to a length over a complete class alphabet, against a reference model',
          'Every argument list of length <=4 (quick) / <=5 (thorough) over 17 argument classes is run through the real ParseAll and compared with an independent in-order partition model; the space is finite and fully enumerated, so within the bound this is a complete decision.',
          'Trusts the reference model projref (30 lines) and the definition "file argument = last path element has a non-empty extension"; nothing is claimed for argument spellings outside the 17 classes or longer lists.', '§2 C35'),
